@@ -350,18 +350,29 @@ def build_obligation(inst):
                 return pairs
             if kind == "lazy_nonaffine":
                 # h = g(x = y*y) stays lazy; h(y=c) must equal g(x=c*c, y=c)
-                _, batch, rank = inst
+                _, batch, rank = inst[:3]
+                how = inst[3] if len(inst) > 3 else "square"
                 reals = OrderedDict(x=(), y=())
                 g, W, P = mk_gaussian(mk, "a", batch, reals, rank)
                 y = Variable("y", Real)
-                h = g(x=y * y)
                 c = mk.array("c", (), "real")
-                r = h(y=Tensor(c))
                 C_ = _cells(c)[()]
+                from lang import cellops as CO
+                if how == "square":
+                    h, xv = g(x=y * y), C_ * C_
+                else:
+                    # reductions of y * t over a fresh integer input: only the SUM is affine in y
+                    T_ = mk.array("t", (2,), "pos")
+                    t = Tensor(T_, OrderedDict(r_=Bint[2]))
+                    Tc = _cells(T_)
+                    opn = how.split("_", 1)[1]
+                    h = g(x=(y * t).reduce(getattr(ops, opn), "r_"))
+                    xv = CO.fold(opn, [C_ * Tc[0], C_ * Tc[1]])
+                r = h(y=Tensor(c))
                 if r.inputs.keys() - set(batch):
                     import z3
                     return [(z3.BoolVal(False) if mk.symbolic else False, None)]
-                xs = [C_ * C_, C_]
+                xs = [xv, C_]
                 return [(value_cells(r, batch), [dense(W, P, b, xs) for b in itertools.product(*(range(n) for n in batch.values()))])]
         raise ValueError(kind)
     return ob
@@ -460,6 +471,8 @@ def instances(tier, seed):
     for b in BATCH_CFGS[:2]:
         for rank in (1, 2, 3):
             out.append(("lazy_nonaffine", b, rank))
+            for how in ("reduce_add", "reduce_max", "reduce_min", "reduce_mul"):
+                out.append(("lazy_nonaffine", b, rank, how))
     return out
 
 
